@@ -2,7 +2,7 @@
 
 Models: Model/Assemble.v (stream_step, queue_step, the line sources; over Prim/PyList.v and Model/AssembleIter.v) and, for the
 composition over LINES proved in Props/C07.v part 2 (C07_readers_loops_equal, C07_socket, C07_six_frontends, C07_wrappers,
-C07_decode_agrees, C07), Model/Reader.v (= Model/Nmea.v produce -> Model/Tbq.v -> one loop iteration), Model/DecodeApi.v
+C07_decode_agrees, C07_decode_agrees_schedule, C07), Model/Reader.v (= Model/Nmea.v produce -> Model/Tbq.v -> one loop iteration), Model/DecodeApi.v
 (decode_api) and Model/Socket.v (sock_iter_messages).
 Correspondence: (a) H-stream (tools/props/stream_common.py): the extracted loops, given the real parser's per-line outcomes,
 against the six real front-ends; (b) composed(): on generated line sequences the extracted rd_run (both loops, with and without
@@ -30,10 +30,12 @@ ASSUMPTIONS = ['loop-level theorems (C07_queue_step_eq, C07_runs_*, C03, C18) qu
                'NMEASentenceFactory.produce / TagBlockQueue.put_sentence, and correspondence (a) feeds the extracted loops the REAL '
                'outcomes; the theorems of part 2 are over byte lines through the modelled parser and tag block queue, tied by '
                'correspondence (b) here and by the parser / tag-block harnesses of C05, C10, C16, C17',
-               'C07_decode_agrees (1) takes the line sequence such that the lines storing into the message\'s (sequence id, channel) '
-               'slot are exactly its parts (any order, anything else in between); slot reuse by earlier / later messages is covered '
-               'at loop level by C03 and on the implementation by the oracle; with a tag block queue the parts must not be rejected '
-               'by it (no tag block, or a tag block that tb.init() accepts), otherwise the reader skips the part',
+               'C07_decode_agrees (1) takes a line sequence in which the lines storing into the message\'s (sequence id, channel) '
+               'slot are exactly its parts (any order, ANY other lines in between, no hypothesis on them); '
+               'C07_decode_agrees_schedule covers slot reuse (other messages of the same slot before and after) for line sequences '
+               'that parse, line by line, to a C03 well-formed schedule; with a tag block queue the lines of such a schedule / the parts '
+               'must not be rejected by it (no tag block, or one that tb.init() accepts) -- a rejected part is skipped by the reader, '
+               'so the message is never completed',
                'the six-front-end theorem is about lines longer than 10 bytes starting with ! $ or backslash (what the Stream line '
                'filter passes; IterMessages and NMEAQueue have no filter), terminated by LF or CR LF; a socket is the sequence of its '
                'recv() results (C06)',
